@@ -101,7 +101,13 @@ class Report:
         if only is not None:
             viol = [o for o in viol if o.ident() == only]
         wall = time.time() - self.t0
-        ev_dir = os.path.join(VERIF, "evidence")
+        # evidence is only ever written for /repo itself; runs against scratch trees (self-test, seeded variants)
+        # write elsewhere so that committed evidence always describes /repo
+        from .load import REPO
+        if os.path.realpath(REPO) == "/repo":
+            ev_dir = os.path.join(VERIF, "evidence")
+        else:
+            ev_dir = os.environ.get("VERIF_EVIDENCE_DIR") or os.path.join("/tmp", "verif-evidence-scratch")
         os.makedirs(os.path.join(ev_dir, "replay"), exist_ok=True)
         out_lines = []
         seen_known = set()
